@@ -135,7 +135,7 @@ impl Property for C16 {
         Some(json!({"src": text, "opts": opts_to(&opts), "origin": cell.src.origin, "mutations": muts, "cell": cell.cell}))
     }
     fn generate(&self, c: &mut Choices<'_>, g: &GenCtx) -> Value {
-        let mode = c.weighted(&[6, 3, 1, 1, 1]);
+        let mode = c.weighted(&[6, 3, 1, 3, 2]);
         if mode == 3 {
             // groups of imports (duplicates, aliases, nested and empty lists) under the
             // granularity / grouping / layout options, as written or after 1..2 token mutations
